@@ -846,6 +846,30 @@ def r_summary(E):
                     is_deleg = isinstance(v, ast.Call) and isinstance(v.func, ast.Attribute) and \
                         isinstance(v.func.value, ast.Name) and v.func.value.id in eparams and \
                         any(norm(a) == "self" for a in v.args)
+                    if is_ctor and eparams:
+                        recorded = set()
+                        names = CTOR_PARAMS.get(v.func.id if isinstance(v.func, ast.Name) else "ExplainableObject")
+                        for i, a in enumerate(v.args):
+                            if i < len(names) and names[i] in ("left_parent", "right_parent"):
+                                recorded |= {x.id for x in ast.walk(a) if isinstance(x, ast.Name)}
+                        for kwd in v.keywords:
+                            if kwd.arg in ("left_parent", "right_parent"):
+                                recorded |= {x.id for x in ast.walk(kwd.value) if isinstance(x, ast.Name)}
+                        # a local alias of the parameter (right_parent = compared_object) counts
+                        for a in ast.walk(fn):
+                            if isinstance(a, ast.Assign) and isinstance(a.targets[0], ast.Name) and a.targets[0].id in recorded \
+                                    and isinstance(a.value, ast.Name):
+                                recorded.add(a.value.id)
+                        miss = [p_ for p_ in eparams if p_ not in recorded]
+                        if miss:
+                            res.findings.append(Finding(
+                                "R-SUMMARY", f"{where} path without the argument :: {norm(r)[:60]}",
+                                f"{where} has a return path (`{norm(r)[:70]}`) that does not record its explainable "
+                                f"argument {miss} as parent although which path runs depends on it: results obtained "
+                                f"through that path do not list it among their ancestors, so an edit of it is not "
+                                f"propagated (the analyser's summary, and R-PROV with it, assume it always is)", path,
+                                r.lineno, where))
+                        continue
                     if is_ctor or is_deleg or not eparams:
                         continue
                     res.findings.append(Finding(
@@ -876,6 +900,8 @@ def r_derived(E):
             res.instances += 1
             reads = {n.attr for n in ast.walk(fn) if isinstance(n, ast.Attribute) and isinstance(n.value, ast.Name)
                      and n.value.id == "self"}
+            reads |= {(norm(c.args[1]).strip("'\"") if len(c.args) > 1 else "?") for c in ast.walk(fn)
+                      if isinstance(c, ast.Call) and norm(c.func) == "getattr" and c.args and norm(c.args[0]) == "self"}
             if reads != {"value"}:
                 res.findings.append(Finding(
                     "R-DERIVED", f"{cls}.{fn.name} reads {sorted(reads - {'value'})}",
